@@ -49,7 +49,7 @@ func ProcessSplunkHecIngestRequest(ctx *fasthttp.RequestCtx, myid int64) {
 		return
 	}
 
-	jsonObjects, err := utils.ExtractSeriesOfJsonObjects(body)
+	jsonObjects, err := utils.ExtractSeriesOfJsonObjectsKeepNumbers(body)
 	if err != nil {
 		utils.SendError(ctx, "Unable to read json request", "", err)
 		return
@@ -151,6 +151,12 @@ func getHecEventTime(record map[string]interface{}) uint64 {
 	switch val := record["time"].(type) {
 	case float64:
 		epoch = val
+	case json.Number:
+		parsedVal, err := val.Float64()
+		if err != nil {
+			return 0
+		}
+		epoch = parsedVal
 	case string:
 		parsedVal, err := strconv.ParseFloat(val, 64)
 		if err != nil {
